@@ -108,6 +108,30 @@ Section Dict.
       + apply eqb_eq in E. subst. exfalso. apply Ha. apply (in_map fst _ _ Hin).
       + apply IH; assumption.
   Qed.
+
+  (* the value of the last pair with key k *)
+  Fixpoint last_assoc (k : K) (l : list (K * V)) : option V :=
+    match l with
+    | [] => None
+    | (k', v) :: r => match last_assoc k r with
+                      | Some w => Some w
+                      | None => if eqb k k' then Some v else None
+                      end
+    end.
+
+  Lemma fold_dict_get k (l : list (K * V)) : forall d,
+    dict_get eqb k (fold_left (fun d kv => dict_set eqb (fst kv) (snd kv) d) l d) =
+    match last_assoc k l with Some w => Some w | None => dict_get eqb k d end.
+  Proof.
+    induction l as [|[k' v] r IH]; intros d; [reflexivity|].
+    cbn [fold_left fst snd last_assoc]. rewrite IH, dict_get_set.
+    destruct (last_assoc k r); [reflexivity|]. destruct (eqb k k'); reflexivity.
+  Qed.
+
+  (* a dictionary built by successive assignments (get_cells, get_cell_importances)
+     answers with the LAST value assigned to the key *)
+  Theorem dict_of_get_last k (l : list (K * V)) : dict_get eqb k (dict_of eqb l) = last_assoc k l.
+  Proof. unfold dict_of. rewrite fold_dict_get. destruct (last_assoc k l); reflexivity. Qed.
 End Dict.
 
 (* ================= LIKE n BUT chains, as written ================= *)
@@ -299,6 +323,18 @@ Section Cells.
     - apply fold_max_none; assumption.
     - symmetry. apply forallb_forall. intros l Hin. apply Nat.eqb_eq.
       rewrite Forall_forall in Hl. apply Hl. exact Hin.
+  Qed.
+
+  (* IMP cards with a repeated name: the code keeps, at the position of the
+     first card of that name, the entries of the last one; importance_cards only
+     sees that dictionary, whose names are pairwise distinct - so
+     importance_cards_max applies to it without any hypothesis on the names *)
+  Theorem importance_cards_dedup (cards : list (string * list string)) :
+    importance_cards Sc P cards = importance_cards Sc P (dict_of String.eqb cards)
+    /\ NoDup (map fst (dict_of String.eqb cards)).
+  Proof.
+    pose proof (dict_of_nodup String.eqb String.eqb_eq cards) as Hn. split; [|exact Hn].
+    unfold importance_cards. rewrite (dict_of_distinct String.eqb String.eqb_eq _ Hn). reflexivity.
   Qed.
 
   (* cards of different lengths are refused *)
